@@ -4,7 +4,7 @@
     reset                                                  -> ok
     add     <txid> <height> <cb:0|1> <nouts> {<vout> <value> <script>}*   commit.do_add        -> ok
     undoadd <txid> <height> <cb:0|1> <nouts> {<vout> <value> <script>}*   UndoBlockTxs addback -> ok
-    del     <key8> <mask: string of 0/1 | ->               UnspentDB.del from commit           -> ok
+    del     <txid32> <mask: string of 0/1 | ->               UnspentDB.del from commit           -> ok
     undodel <key8> <n>                                     UndoBlockTxs first loop             -> ok
     enable  <min> <usemapcnt>                              LoadBalancesFromUtxo                -> ok
     disable                                                Disable                             -> ok
@@ -127,11 +127,11 @@ def step1 (s : State) (toks : List String) : State × String :=
     | none => bad
   | ["del", key, mask] =>
     match Hex.decode key, parseMask mask with
-    | some key, some mask => if key.length = 8 then (step H s (.del key mask), "ok") else bad
+    | some txid, some mask => if txid.length = 32 then (step H s (.del txid mask), "ok") else bad
     | _, _ => bad
   | ["undodel", key, n] =>
     match Hex.decode key, n.toNat? with
-    | some key, some n => if key.length = 8 then (step H s (.undoDel key n), "ok") else bad
+    | some txid, some n => if txid.length = 32 then (step H s (.undoDel txid n), "ok") else bad
     | _, _ => bad
   | ["enable", mn, um] =>
     match mn.toNat?, um.toNat? with
@@ -219,7 +219,7 @@ def step' (ss : State × Static) (toks : List String) : (State × Static) × Str
     match um.toNat?, idx.toNat?, Hex.decode file with
     | some um, some i, some f =>
       match loadPairs um f with
-      | none => (ss, "keep")
+      | none => (ss, "refuse")
       | some l =>
         let one := fun (p : Nat × Option Bal) => match p.2 with
           | none => s!"N {i} {p.1}"
